@@ -7,6 +7,7 @@ from ..flow import AbsInt
 from ..rules import decide_states, pure_params
 
 ID = "C20"
+ANCHORS = 'design.greedy_substitution,design._fast_tile_substitute'.split(",")
 MIN_INSTANCES = 12
 EXPLANATION = (
     "R-WIN: the number of tiled candidate sequences equals the number of start positions ersatz.substitute accepts "
